@@ -36,7 +36,12 @@ def run_traced(jobs: list[dict], chunk: int = 10, timeout: int = 900) -> list[di
     parts = [jobs[i:i + chunk] for i in range(0, len(jobs), chunk)]
     out: list[dict] = []
     with ThreadPoolExecutor(max_workers=8) as ex:
-        for r in ex.map(one, parts):
+        for part, r in zip(parts, ex.map(one, parts)):
+            if len(part) > 1 and any("runner_error" in x for x in r):
+                # the runner process died on one job: do not lose the others of the chunk
+                r = [one([job])[0] for job in part]
+            for job, x in zip(part, r):
+                common.note_lost(job, x)
             out += r
     return out
 
@@ -273,7 +278,7 @@ def krun(chk, pid: str, grammar_texts: list[str], inputs_for, configs=("q1",), c
     cases, descs, pairs = [], [], []
     for t, rj in zip(grammar_texts, results):
         if "results" not in rj:
-            chk.bump("not runnable: " + (rj.get("build_error") or rj.get("runner_error") or "?")[:40])
+            chk.bump("not runnable: " + (rj.get("build_error") or rj.get("runner_error") or "?").strip().splitlines()[-1][:60])
             continue
         pairs.append((t, rj))
         for one in rj["results"]:
